@@ -1,13 +1,17 @@
 import ClipperVerif.Driver.Basic
 import ClipperVerif.Driver.C18
 import ClipperVerif.Driver.Region
+import ClipperVerif.Driver.C05
+import ClipperVerif.Driver.C02
 namespace Clipper.Driver
 open Clipper.Proto
 
 def handlers : List (String → Option (P String)) := [
   Basic.handle,
   C18.handle,
-  Region.handle
+  Region.handle,
+  C05.handle,
+  C02.handle
 ]
 
 def dispatch (cmd : String) : Option (P String) :=
